@@ -21,6 +21,19 @@ import (
 	"com.tuntun.rangers/node/src/utility"
 )
 
+// magnifyGas applies the Proposal026 gas magnification. A product that does not
+// fit in a uint64 is reported as ErrGasUintOverflow instead of wrapping around.
+func magnifyGas(gas uint64) (uint64, error) {
+	if !common.IsProposal026() {
+		return gas, nil
+	}
+	magnified, overflow := utility.SafeMul(gas, common.GasMagnification)
+	if overflow {
+		return 0, ErrGasUintOverflow
+	}
+	return magnified, nil
+}
+
 // memoryGasCost calculates the quadratic gas for memory expansion. It does so
 // only for the memory region that is expanded, not the total memory.
 func memoryGasCost(mem *Memory, newMemSize uint64) (uint64, error) {
@@ -46,10 +59,7 @@ func memoryGasCost(mem *Memory, newMemSize uint64) (uint64, error) {
 
 		fee := newTotalFee - mem.lastGasCost
 		mem.lastGasCost = newTotalFee
-		if common.IsProposal026() {
-			return fee * common.GasMagnification, nil
-		}
-		return fee, nil
+		return magnifyGas(fee)
 	}
 	return 0, nil
 }
@@ -81,10 +91,7 @@ func memoryCopierGas(stackpos int) gasFunc {
 		if gas, overflow = utility.SafeAdd(gas, words); overflow {
 			return 0, ErrGasUintOverflow
 		}
-		if common.IsProposal026() {
-			return gas * common.GasMagnification, nil
-		}
-		return gas, nil
+		return magnifyGas(gas)
 	}
 }
 
@@ -142,10 +149,7 @@ func makeGasLog(n uint64) gasFunc {
 		if gas, overflow = utility.SafeAdd(gas, memorySizeGas); overflow {
 			return 0, ErrGasUintOverflow
 		}
-		if common.IsProposal026() {
-			return gas * common.GasMagnification, nil
-		}
-		return gas, nil
+		return magnifyGas(gas)
 	}
 }
 
@@ -164,10 +168,7 @@ func gasSha3(evm *EVM, contract *Contract, stack *Stack, mem *Memory, memorySize
 	if gas, overflow = utility.SafeAdd(gas, wordGas); overflow {
 		return 0, ErrGasUintOverflow
 	}
-	if common.IsProposal026() {
-		return gas * common.GasMagnification, nil
-	}
-	return gas, nil
+	return magnifyGas(gas)
 }
 
 // pureMemoryGascost is used by several operations, which aside from their
@@ -202,10 +203,7 @@ func gasCreate2(evm *EVM, contract *Contract, stack *Stack, mem *Memory, memoryS
 	if gas, overflow = utility.SafeAdd(gas, wordGas); overflow {
 		return 0, ErrGasUintOverflow
 	}
-	if common.IsProposal026() {
-		return gas * common.GasMagnification, nil
-	}
-	return gas, nil
+	return magnifyGas(gas)
 }
 
 func gasExpFrontier(evm *EVM, contract *Contract, stack *Stack, mem *Memory, memorySize uint64) (uint64, error) {
@@ -218,10 +216,7 @@ func gasExpFrontier(evm *EVM, contract *Contract, stack *Stack, mem *Memory, mem
 	if gas, overflow = utility.SafeAdd(gas, ExpGas); overflow {
 		return 0, ErrGasUintOverflow
 	}
-	if common.IsProposal026() {
-		return gas * common.GasMagnification, nil
-	}
-	return gas, nil
+	return magnifyGas(gas)
 }
 
 func gasExpEIP158(evm *EVM, contract *Contract, stack *Stack, mem *Memory, memorySize uint64) (uint64, error) {
@@ -234,10 +229,7 @@ func gasExpEIP158(evm *EVM, contract *Contract, stack *Stack, mem *Memory, memor
 	if gas, overflow = utility.SafeAdd(gas, ExpGas); overflow {
 		return 0, ErrGasUintOverflow
 	}
-	if common.IsProposal026() {
-		return gas * common.GasMagnification, nil
-	}
-	return gas, nil
+	return magnifyGas(gas)
 }
 
 func gasCall(evm *EVM, contract *Contract, stack *Stack, mem *Memory, memorySize uint64) (uint64, error) {
